@@ -94,6 +94,7 @@ type State struct {
 	pend     *Term
 	pendName string
 	spec     bool
+	mapFixed bool // C13: map ranges follow insertion order (harness switch vMapOrderFixed)
 	gcCheck  bool // C14: check that pointer-carrying cells only live in pointer-typed memory
 	recovered bool
 	pinned   map[string]uint64 // variables fixed by concretization (copy-on-write)
